@@ -75,7 +75,7 @@ const EDIT_KINDS: &[&str] = &[
 ];
 
 fn is_noise(kind: &str) -> bool {
-    matches!(kind, "comments" | "decoy_items" | "non_rs_file" | "target_decoy" | "git_decoy" | "broken_file" | "huge_comment" | "doc_comments" | "rust_noise")
+    matches!(kind, "comments" | "decoy_items" | "non_rs_file" | "target_decoy" | "git_decoy" | "broken_file" | "huge_comment" | "doc_comments" | "rust_noise" | "doc_words")
 }
 
 const DECOY_RS: &str = "use serde::{Deserialize, Serialize};\n\n#[derive(Serialize, Deserialize)]\npub struct BuildArtifactType {\n    pub leaked: String,\n}\n\n#[tauri::command]\npub fn build_artifact_command(x: BuildArtifactType) -> BuildArtifactType {\n    x\n}\n";
@@ -125,6 +125,27 @@ fn apply_edit(r: &mut Rng, kind: &str, m: &Model, extras: &BTreeMap<String, Stri
                     _ => format!("/// `{}`: see <https://example.invalid/{}>\n", w1, w1),
                 };
                 m2.files[fi].items.insert(pos, Item::Raw(text));
+            }
+        }
+        "doc_words" => {
+            // documentation comments whose TEXT names the traits the tool looks for in derive
+            // lists, in front of every type that derives neither (asked for by name in the
+            // directed block at the end of both tiers; not in EDIT_KINDS)
+            for f in m2.files.iter_mut() {
+                let mut k = 0;
+                while k < f.items.len() {
+                    if matches!(&f.items[k], Item::Struct(sd) if !sd.serde) {
+                        let text = match r.below(4) {
+                            0 => "/// Serialized by hand (see the impl of Serialize below).\n".to_string(),
+                            1 => "/** Not Deserialize: built by the session layer only. */\n".to_string(),
+                            2 => "/// Opaque handle.\n///\n/// Kept out of `#[derive(Serialize, Deserialize)]` on purpose.\n".to_string(),
+                            _ => "#[doc = \"Serialize / Deserialize are implemented manually\"]\n".to_string(),
+                        };
+                        f.items.insert(k, Item::Raw(text));
+                        k += 1;
+                    }
+                    k += 1;
+                }
             }
         }
         "rust_noise" => {
@@ -445,7 +466,7 @@ impl Check for C13 {
     }
     fn cases(&self, tier: Tier) -> u64 {
         match tier {
-            Tier::Quick => 650,
+            Tier::Quick => 650 + 26,
             Tier::Thorough => 12000,
         }
     }
@@ -469,8 +490,33 @@ impl Check for C13 {
         let mut mr = r.split("model");
         let mut model = gen_model(&mut mr, &gp);
         let mut flags = vec![];
-        let edit_case = i % 2 == 1;
+        // directed block at the end of both tiers (quick: 26 worlds, thorough: the last 200): a type
+        // WITHOUT serde derives that a command takes and returns, and as the edit documentation
+        // comments in front of such types whose text mentions Serialize / Deserialize
+        let doc_tail = match tier {
+            Tier::Quick => i >= 650,
+            Tier::Thorough => i >= 11800,
+        };
+        let edit_case = i % 2 == 1 || doc_tail;
         add_specials(&mut mr, &mut model, &mut flags, !edit_case);
+        if doc_tail {
+            let name = format!("SessionToken{}", i);
+            let fld = |n: &str, ty: &str| Field { name: n.into(), ty: Ty::Prim(ty.into()), public: true, rename: None, skip: false, validate: None };
+            let at = (i as usize / 2) % model.files.len();
+            model.files[at].items.push(Item::Struct(StructDef { name: name.clone(), fields: vec![fld("secret", "String"), fld("expires_at", "u64")], rename_all: None, serde: false, qualified_derive: false }));
+            let at2 = (i as usize / 3) % model.files.len();
+            model.files[at2].items.push(Item::Cmd(Command {
+                name: format!("refresh_session_{}", i),
+                params: vec![crate::model::Param { name: "token".into(), ty: Ty::Named(name.clone()) }],
+                chans: vec![],
+                ret: Some(Ty::Named(name)),
+                is_async: i % 4 < 2,
+                short_attr: false,
+                emits: vec![],
+                is_command: true,
+            }));
+            flags.push("non-serde-type-in-command".into());
+        }
         // many source files (17..70) in an eighth of the worlds
         if (i / 13) % 8 == 3 {
             let mut wr = r.split("widen");
@@ -523,7 +569,7 @@ impl Check for C13 {
             // the last process cannot read one source file, or list one directory of the project, at all
             if let Some(p) = procs.last_mut() {
                 // (schedule worlds only: the edit cases compare outcomes before and after an edit)
-                if s >= 2 && i % 2 == 0 {
+                if s >= 2 && !edit_case {
                     let at = if qr.chance(1, 3) {
                         crate::interpose::FaultAt::PathOp {
                             suffix: qr.pick(&["/src-tauri/src", "/commands", "/models", "/util", "/events", "/bulk"]).to_string(),
@@ -545,7 +591,7 @@ impl Check for C13 {
             .collect();
         let relocate: Vec<bool> = (0..s).map(|k| k > 0 && !edit_case && pr.chance(1, 4)).collect();
         let mut er = r.split("edit");
-        let edit_kind = EDIT_KINDS[((i / 2) % EDIT_KINDS.len() as u64) as usize].to_string();
+        let edit_kind = if doc_tail { "doc_words".to_string() } else { EDIT_KINDS[((i / 2) % EDIT_KINDS.len() as u64) as usize].to_string() };
         let extras: BTreeMap<String, String> = BTreeMap::new();
         let (model_after, extras_after) = if edit_case {
             let (m2, e2) = apply_edit(&mut er, &edit_kind, &model, &extras);
